@@ -65,6 +65,7 @@ let table : (string * (sexp -> sexp)) list = [
   ("C10", run_C10);
   ("C07", run_C07);
   ("C08", run_C08);
+  ("C06", run_C06);
 ]
 
 let () =
